@@ -427,10 +427,9 @@ Proof.
   - destruct (Nat.eq_dec k n) as [->|Ne]; [congruence|]. apply (I2 _ _ Hk). congruence.
 Qed.
 
-Lemma inv_fresh s : allclosed s ->
-  inv (set_sinks (set_next (set_next s None) (Some (length (sinks s)))) (sinks s ++ [SIdle])).
+Lemma inv_fresh s x0 : allclosed s -> inv (fresh s x0).
 Proof.
-  intros AC. split; cbn [next sinks set_sinks set_next].
+  intros AC. unfold fresh. split; cbn [next sinks set_sinks set_next].
   - intros n H. inversion H; subst. rewrite app_length. cbn. lia.
   - intros n x Hx Hne. assert (n < length (sinks s)).
     { pose proof (nth_error_lt _ _ _ Hx) as L. rewrite app_length in L. cbn in L.
@@ -448,20 +447,23 @@ Lemma get_cases s f :
              get s f = (s, GSink n, [])) \/
   (exists n, next s = Some n /\ nth_error (sinks s) n = None /\ get s f = (s, GRaise, [])) \/
   ((next s = None \/ exists n, next s = Some n /\ nth_error (sinks s) n = Some SClosed) /\
-   ((f = true /\ get s f = (set_next s None, GRaise, [])) \/
-    (f = false /\
-     get s f = (set_sinks (set_next (set_next s None) (Some (length (sinks s)))) (sinks s ++ [SIdle]),
-                GWait (length (sinks s)), [Create (length (sinks s)); OpenUnder (length (sinks s))])))).
+   ((f = CFail /\ get s f = (set_next s None, GRaise, [])) \/
+    (exists x r, get s f = (fresh s x, r, [Create (length (sinks s)); OpenUnder (length (sinks s))]) /\
+       ((f = CIdle /\ x = SIdle /\ r = GWait (length (sinks s))) \/
+        (f = COpenNow /\ x = SOpen /\ r = GSink (length (sinks s))) \/
+        (f = CFailNow /\ x = SClosed /\ r = GSink (length (sinks s))))))).
 Proof.
-  destruct s as [nx rc sk wt sp nt]. unfold get, create. cbn [next sinks set_next set_sinks refc waiting spawned ntask].
+  destruct s as [nx rc sk wt sp nt]. unfold get, create, fresh. cbn [next sinks set_next set_sinks refc waiting spawned ntask].
   destruct nx as [n|].
   - destruct (nth_error sk n) as [[| | |]|] eqn:E.
     + left. eauto.
     + right. left. eauto.
     + right. left. eauto.
-    + right. right. right. split; [right; eauto|]. destruct f; [left|right]; split; reflexivity.
+    + right. right. right. split; [right; eauto|]. destruct f; [right|left|right|right]; try (split; reflexivity);
+        eexists; eexists; (split; [reflexivity|]); auto 10.
     + right. right. left. eauto.
-  - right. right. right. split; [left; reflexivity|]. destruct f; [left|right]; split; reflexivity.
+  - right. right. right. split; [left; reflexivity|]. destruct f; [right|left|right|right]; try (split; reflexivity);
+      eexists; eexists; (split; [reflexivity|]); auto 10.
 Qed.
 
 Definition step_next_ok (s s1 : st) : Prop :=
@@ -474,13 +476,13 @@ Lemma step_sinks s l n :
 Proof.
   unfold closed. intros Hc. pose proof (nth_error_lt _ _ _ Hc) as Hlt.
   destruct l as [f| |t0 f| |m ok|m|m b|t]; cbn [step].
-  - destruct (get_cases (bump s) f) as [(k & _ & _ & ->)|[(k & _ & _ & ->)|[(k & _ & _ & ->)|(_ & [(_ & ->)|(_ & ->)])]]];
-      cbn; try assumption. rewrite nth_error_snoc_old; assumption.
+  - destruct (get_cases (bump s) f) as [(k & _ & _ & ->)|[(k & _ & _ & ->)|[(k & _ & _ & ->)|(_ & [(_ & ->)|(x9 & r9 & -> & [(_ & -> & ->)|[(_ & -> & ->)|(_ & -> & ->)]])])]]];
+      cbn; try assumption; rewrite nth_error_snoc_old; assumption.
   - destruct (refc (set_refc (bump s) (refc s + 1)) >? 1)%Z; exact Hc.
   - destruct (existsb (Nat.eqb t0) (spawned s)); [|exact Hc].
     destruct (get_cases (set_spawned s (filter (fun x => negb (Nat.eqb x t0)) (spawned s))) f)
-      as [(k & _ & _ & ->)|[(k & _ & _ & ->)|[(k & _ & _ & ->)|(_ & [(_ & ->)|(_ & ->)])]]];
-      cbn; try assumption. rewrite nth_error_snoc_old; assumption.
+      as [(k & _ & _ & ->)|[(k & _ & _ & ->)|[(k & _ & _ & ->)|(_ & [(_ & ->)|(x9 & r9 & -> & [(_ & -> & ->)|[(_ & -> & ->)|(_ & -> & ->)]])])]]];
+      cbn; try assumption; rewrite nth_error_snoc_old; assumption.
   - cbn [next set_refc refc]. destruct (next s) as [k|]; [|exact Hc].
     destruct (refc s - 1 <=? 0)%Z; cbn; [|exact Hc].
     destruct (Nat.eq_dec k n) as [->|Ne]; [apply nth_error_upd_eq, Hlt | rewrite nth_error_upd_neq; assumption].
@@ -500,23 +502,27 @@ Lemma step_inv s l : inv s -> inv (fst (step s l)).
 Proof.
   intros I. destruct l as [f| |t0 f| |m ok|m|m b|t]; cbn [step].
   - assert (Ib : inv (bump s)) by (revert I; apply inv_ext; reflexivity).
-    destruct (get_cases (bump s) f) as [(k & _ & _ & ->)|[(k & _ & _ & ->)|[(k & _ & _ & ->)|(Hc & [(_ & ->)|(_ & ->)])]]];
+    destruct (get_cases (bump s) f) as [(k & _ & _ & ->)|[(k & _ & _ & ->)|[(k & _ & _ & ->)|(Hc & [(_ & ->)|(x9 & r9 & -> & [(_ & -> & ->)|[(_ & -> & ->)|(_ & -> & ->)]])])]]];
       cbn [fst].
     + revert Ib. apply inv_ext; reflexivity.
     + exact Ib.
     + exact Ib.
     + apply inv_dropped, inv_allclosed; assumption.
-    + eapply inv_ext; [| |apply (inv_fresh (bump s)), inv_allclosed; assumption]; reflexivity.
+    + eapply inv_ext; [| |apply (inv_fresh (bump s) SIdle), inv_allclosed; assumption]; reflexivity.
+    + apply (inv_fresh (bump s) SOpen), inv_allclosed; assumption.
+    + apply (inv_fresh (bump s) SClosed), inv_allclosed; assumption.
   - destruct (refc (set_refc (bump s) (refc s + 1)) >? 1)%Z; cbn [fst]; (revert I; apply inv_ext; reflexivity).
   - destruct (existsb (Nat.eqb t0) (spawned s)); [|exact I]. set (s0 := set_spawned s (filter (fun x => negb (Nat.eqb x t0)) (spawned s))).
     assert (Ib : inv s0) by (revert I; apply inv_ext; reflexivity).
-    destruct (get_cases s0 f) as [(k & _ & _ & ->)|[(k & _ & _ & ->)|[(k & _ & _ & ->)|(Hc & [(_ & ->)|(_ & ->)])]]];
+    destruct (get_cases s0 f) as [(k & _ & _ & ->)|[(k & _ & _ & ->)|[(k & _ & _ & ->)|(Hc & [(_ & ->)|(x9 & r9 & -> & [(_ & -> & ->)|[(_ & -> & ->)|(_ & -> & ->)]])])]]];
       cbn [fst].
     + revert Ib. apply inv_ext; reflexivity.
     + exact Ib.
     + exact Ib.
     + apply inv_dropped, inv_allclosed; assumption.
-    + eapply inv_ext; [| |apply (inv_fresh s0), inv_allclosed; assumption]; reflexivity.
+    + eapply inv_ext; [| |apply (inv_fresh s0 SIdle), inv_allclosed; assumption]; reflexivity.
+    + apply (inv_fresh s0 SOpen), inv_allclosed; assumption.
+    + apply (inv_fresh s0 SClosed), inv_allclosed; assumption.
   - cbn [next set_refc refc]. destruct (next s) as [k|] eqn:En; [|revert I; apply inv_ext; reflexivity].
     destruct (refc s - 1 <=? 0)%Z; cbn [fst]; [|revert I; apply inv_ext; reflexivity].
     destruct I as (I1 & I2). split; cbn; [discriminate|].
@@ -556,15 +562,15 @@ Lemma step_create s l m :
 Proof.
   intros I. destruct l as [f| |t0 f| |k ok|k|k b|t]; cbn [step].
   - assert (Ib : inv (bump s)) by (revert I; apply inv_ext; reflexivity).
-    destruct (get_cases (bump s) f) as [(k & _ & _ & ->)|[(k & _ & _ & ->)|[(k & _ & _ & ->)|(Hc & [(_ & ->)|(_ & ->)])]]];
-      cbn [snd app]; intros H; repeat (destruct H as [H|H]; try discriminate); try contradiction.
-    inversion H; subst. split; [|reflexivity]. apply (inv_allclosed (bump s)); assumption.
+    destruct (get_cases (bump s) f) as [(k & _ & _ & ->)|[(k & _ & _ & ->)|[(k & _ & _ & ->)|(Hc & [(_ & ->)|(x9 & r9 & -> & [(_ & -> & ->)|[(_ & -> & ->)|(_ & -> & ->)]])])]]];
+      cbn [snd app]; intros H; repeat (destruct H as [H|H]; try discriminate); try contradiction;
+      (inversion H; subst; split; [|reflexivity]; apply (inv_allclosed (bump s)); assumption).
   - destruct (refc (set_refc (bump s) (refc s + 1)) >? 1)%Z; cbn; [intros [H|[]]; discriminate | intros []].
   - destruct (existsb (Nat.eqb t0) (spawned s)); [|intros []]. set (s0 := set_spawned s (filter (fun x => negb (Nat.eqb x t0)) (spawned s))).
     assert (Ib : inv s0) by (revert I; apply inv_ext; reflexivity).
-    destruct (get_cases s0 f) as [(k & _ & _ & ->)|[(k & _ & _ & ->)|[(k & _ & _ & ->)|(Hc & [(_ & ->)|(_ & ->)])]]];
-      cbn [snd app]; intros H; repeat (destruct H as [H|H]; try discriminate); try contradiction.
-    inversion H; subst. split; [|reflexivity]. apply (inv_allclosed s0); assumption.
+    destruct (get_cases s0 f) as [(k & _ & _ & ->)|[(k & _ & _ & ->)|[(k & _ & _ & ->)|(Hc & [(_ & ->)|(x9 & r9 & -> & [(_ & -> & ->)|[(_ & -> & ->)|(_ & -> & ->)]])])]]];
+      cbn [snd app]; intros H; repeat (destruct H as [H|H]; try discriminate); try contradiction;
+      (inversion H; subst; split; [|reflexivity]; apply (inv_allclosed s0); assumption).
   - cbn [next set_refc refc]. destruct (next s); [destruct (refc s - 1 <=? 0)%Z|]; cbn;
       intros H; repeat (destruct H as [H|H]; try discriminate); contradiction.
   - unfold notify. destruct (nth_error (sinks s) k) as [[| | |]|]; try destruct ok; cbn; try tauto;
@@ -585,12 +591,12 @@ Lemma step_forward s l c n :
   In (Forward c n) (snd (step s l)) -> next (fst (step s l)) = Some n.
 Proof.
   destruct l as [f| |t0 f| |k ok|k|k b|t]; cbn [step].
-  - destruct (get_cases (bump s) f) as [(k & _ & _ & ->)|[(k & Hn & _ & ->)|[(k & _ & _ & ->)|(Hc & [(_ & ->)|(_ & ->)])]]];
-      cbn [fst snd app]; intros H; repeat (destruct H as [H|H]; try discriminate); try contradiction.
-    inversion H; subst. exact Hn.
+  - destruct (get_cases (bump s) f) as [(k & _ & _ & ->)|[(k & Hn & _ & ->)|[(k & _ & _ & ->)|(Hc & [(_ & ->)|(x9 & r9 & -> & [(_ & -> & ->)|[(_ & -> & ->)|(_ & -> & ->)]])])]]];
+      cbn [fst snd app]; intros H; repeat (destruct H as [H|H]; try discriminate); try contradiction;
+      inversion H; subst; first [exact Hn | reflexivity].
   - destruct (refc (set_refc (bump s) (refc s + 1)) >? 1)%Z; cbn; [intros [H|[]]; discriminate | intros []].
   - destruct (existsb (Nat.eqb t0) (spawned s)); [|intros []]. set (s0 := set_spawned s (filter (fun x => negb (Nat.eqb x t0)) (spawned s))).
-    destruct (get_cases s0 f) as [(k & _ & _ & ->)|[(k & _ & _ & ->)|[(k & _ & _ & ->)|(Hc & [(_ & ->)|(_ & ->)])]]];
+    destruct (get_cases s0 f) as [(k & _ & _ & ->)|[(k & _ & _ & ->)|[(k & _ & _ & ->)|(Hc & [(_ & ->)|(x9 & r9 & -> & [(_ & -> & ->)|[(_ & -> & ->)|(_ & -> & ->)]])])]]];
       cbn [snd app]; intros H; repeat (destruct H as [H|H]; try discriminate); contradiction.
   - cbn [next set_refc refc]. destruct (next s); [destruct (refc s - 1 <=? 0)%Z|]; cbn;
       intros H; repeat (destruct H as [H|H]; try discriminate); contradiction.
@@ -613,12 +619,12 @@ Lemma step_mentions s l o m :
   In o (snd (step s l)) -> obs_sink o = Some m -> next s = Some m \/ m = length (sinks s).
 Proof.
   destruct l as [f| |t0 f| |k ok|k|k b|t]; cbn [step].
-  - destruct (get_cases (bump s) f) as [(k & Hn & _ & ->)|[(k & Hn & _ & ->)|[(k & _ & _ & ->)|(Hc & [(_ & ->)|(_ & ->)])]]];
+  - destruct (get_cases (bump s) f) as [(k & Hn & _ & ->)|[(k & Hn & _ & ->)|[(k & _ & _ & ->)|(Hc & [(_ & ->)|(x9 & r9 & -> & [(_ & -> & ->)|[(_ & -> & ->)|(_ & -> & ->)]])])]]];
       cbn [fst snd app]; intros H Ho; repeat (destruct H as [H|H]; try subst o); try contradiction;
       cbn in Ho; try discriminate; inversion Ho; subst; auto.
   - destruct (refc (set_refc (bump s) (refc s + 1)) >? 1)%Z; cbn; [intros [H|[]] Ho; subst o; discriminate | intros []].
   - destruct (existsb (Nat.eqb t0) (spawned s)); [|intros []]. set (s0 := set_spawned s (filter (fun x => negb (Nat.eqb x t0)) (spawned s))).
-    destruct (get_cases s0 f) as [(k & Hn & _ & ->)|[(k & Hn & _ & ->)|[(k & _ & _ & ->)|(Hc & [(_ & ->)|(_ & ->)])]]];
+    destruct (get_cases s0 f) as [(k & Hn & _ & ->)|[(k & Hn & _ & ->)|[(k & _ & _ & ->)|(Hc & [(_ & ->)|(x9 & r9 & -> & [(_ & -> & ->)|[(_ & -> & ->)|(_ & -> & ->)]])])]]];
       cbn [fst snd app]; intros H Ho; repeat (destruct H as [H|H]; try subst o); try contradiction;
       cbn in Ho; try discriminate; inversion Ho; subst; auto.
   - cbn [next set_refc refc]. destruct (next s) as [j|]; [destruct (refc s - 1 <=? 0)%Z|]; cbn;
@@ -642,11 +648,11 @@ Qed.
 Lemma step_next s l : step_next_ok s (fst (step s l)) /\ length (sinks s) <= length (sinks (fst (step s l))).
 Proof.
   unfold step_next_ok. destruct l as [f| |t0 f| |k ok|k|k b|t]; cbn [step].
-  - destruct (get_cases (bump s) f) as [(k & Hn & _ & ->)|[(k & Hn & _ & ->)|[(k & _ & _ & ->)|(Hc & [(_ & ->)|(_ & ->)])]]];
+  - destruct (get_cases (bump s) f) as [(k & Hn & _ & ->)|[(k & Hn & _ & ->)|[(k & _ & _ & ->)|(Hc & [(_ & ->)|(x9 & r9 & -> & [(_ & -> & ->)|[(_ & -> & ->)|(_ & -> & ->)]])])]]];
       cbn; try rewrite app_length; cbn; auto; split; auto; lia.
   - destruct (refc (set_refc (bump s) (refc s + 1)) >? 1)%Z; cbn; auto.
   - destruct (existsb (Nat.eqb t0) (spawned s)); [|cbn; auto]. set (s0 := set_spawned s (filter (fun x => negb (Nat.eqb x t0)) (spawned s))).
-    destruct (get_cases s0 f) as [(k & Hn & _ & ->)|[(k & Hn & _ & ->)|[(k & _ & _ & ->)|(Hc & [(_ & ->)|(_ & ->)])]]];
+    destruct (get_cases s0 f) as [(k & Hn & _ & ->)|[(k & Hn & _ & ->)|[(k & _ & _ & ->)|(Hc & [(_ & ->)|(x9 & r9 & -> & [(_ & -> & ->)|[(_ & -> & ->)|(_ & -> & ->)]])])]]];
       cbn; try rewrite app_length; cbn; auto; split; auto; lia.
   - cbn [next set_refc refc]. destruct (next s) as [j|] eqn:En; [destruct (refc s - 1 <=? 0)%Z|]; cbn;
       try rewrite upd_length; auto.
@@ -744,11 +750,13 @@ Lemma req_retires s f n : closed s n -> retired (fst (step s (Req f))) n.
 Proof.
   intros Hc. pose proof (nth_error_lt _ _ _ Hc) as Hlt. unfold closed in Hc.
   cbn [step].
-  destruct (get_cases (bump s) f) as [(k & Hn & Hk & ->)|[(k & Hn & Hk & ->)|[(k & Hn & Hk & ->)|(_ & [(_ & ->)|(_ & ->)])]]];
+  destruct (get_cases (bump s) f) as [(k & Hn & Hk & ->)|[(k & Hn & Hk & ->)|[(k & Hn & Hk & ->)|(_ & [(_ & ->)|(x9 & r9 & -> & [(_ & -> & ->)|[(_ & -> & ->)|(_ & -> & ->)]])])]]];
     cbn [fst]; split; cbn; try rewrite app_length; cbn; try lia; try discriminate.
   - cbn in Hn, Hk. rewrite Hn. intros H. inversion H; subst. congruence.
   - cbn in Hn, Hk. rewrite Hn. intros H. inversion H; subst. destruct Hk; congruence.
   - cbn in Hn, Hk. rewrite Hn. intros H. inversion H; subst. congruence.
+  - intros H. inversion H. lia.
+  - intros H. inversion H. lia.
   - intros H. inversion H. lia.
 Qed.
 
@@ -790,18 +798,20 @@ Qed.
 Lemma req_replaces s :
   (next s = None \/ exists n, next s = Some n /\ closed s n) ->
   let L := length (sinks s) in
-  let s' := fst (step s (Req false)) in
-  snd (step s (Req false)) = [Create L; OpenUnder L] /\
+  let s' := fst (step s (Req CIdle)) in
+  snd (step s (Req CIdle)) = [Create L; OpenUnder L] /\
   next s' = Some L /\ sinks s' = sinks s ++ [SIdle] /\
   waiting s' = waiting s ++ [mkTask (ntask s) KReq L].
 Proof.
   intros H. cbn zeta. cbn [step].
-  destruct (get_cases (bump s) false) as [(k & Hn & Hk & _)|[(k & Hn & Hk & _)|[(k & Hn & Hk & _)|(_ & [(Hf & _)|(_ & ->)])]]].
+  destruct (get_cases (bump s) CIdle) as [(k & Hn & Hk & _)|[(k & Hn & Hk & _)|[(k & Hn & Hk & _)|(_ & [(Hf & _)|(x9 & r9 & -> & [(_ & -> & ->)|[(Hf & _)|(Hf & _)]])])]]].
   - cbn in Hn, Hk. destruct H as [H|(n & H & Hc)]; unfold closed in *; congruence.
   - cbn in Hn, Hk. destruct H as [H|(n & H & Hc)]; unfold closed in *; destruct Hk; congruence.
   - cbn in Hn, Hk. destruct H as [H|(n & H & Hc)]; unfold closed in *; congruence.
   - discriminate.
   - cbn. auto.
+  - discriminate.
+  - discriminate.
 Qed.
 
 (* the current sink is open: the request is forwarded to it at once, nothing else happens *)
@@ -847,7 +857,7 @@ Lemma req_silent_closed s f n o :
   closed s n -> In o (snd (step s (Req f))) -> obs_sink o <> Some n.
 Proof.
   intros Hc. pose proof (nth_error_lt _ _ _ Hc) as Hlt. unfold closed in Hc. cbn [step].
-  destruct (get_cases (bump s) f) as [(k & Hn & Hk & ->)|[(k & Hn & Hk & ->)|[(k & Hn & Hk & ->)|(_ & [(_ & ->)|(_ & ->)])]]];
+  destruct (get_cases (bump s) f) as [(k & Hn & Hk & ->)|[(k & Hn & Hk & ->)|[(k & Hn & Hk & ->)|(_ & [(_ & ->)|(x9 & r9 & -> & [(_ & -> & ->)|[(_ & -> & ->)|(_ & -> & ->)]])])]]];
     cbn [snd app]; intros H Ho; repeat (destruct H as [H|H]; try subst o); try contradiction;
     cbn in Ho; try discriminate; inversion Ho; subst; try (cbn in Hk; congruence); try (cbn in Hk; destruct Hk; congruence); lia.
 Qed.
@@ -858,7 +868,7 @@ Proof. intros H. unfold live_count. rewrite filter_allclosed; [reflexivity | exa
 (* ---- the pool's own count ---------------------------------------------------------------------- *)
 Lemma get_refc s f : refc (fst (fst (get s f))) = refc s.
 Proof.
-  destruct (get_cases s f) as [(k & _ & _ & ->)|[(k & _ & _ & ->)|[(k & _ & _ & ->)|(_ & [(_ & ->)|(_ & ->)])]]]; reflexivity.
+  destruct (get_cases s f) as [(k & _ & _ & ->)|[(k & _ & _ & ->)|[(k & _ & _ & ->)|(_ & [(_ & ->)|(x9 & r9 & -> & [(_ & -> & ->)|[(_ & -> & ->)|(_ & -> & ->)]])])]]]; reflexivity.
 Qed.
 
 Lemma step_refc s l :
@@ -896,12 +906,12 @@ Lemma step_closeunder s l n :
   In (CloseUnder n) (snd (step s l)) -> l = ClosePool /\ (refc s <= 1)%Z /\ next s = Some n.
 Proof.
   destruct l as [f| |t0 f| |m ok|m|m b|t]; cbn [step].
-  - destruct (get_cases (bump s) f) as [(k & _ & _ & ->)|[(k & _ & _ & ->)|[(k & _ & _ & ->)|(_ & [(_ & ->)|(_ & ->)])]]];
+  - destruct (get_cases (bump s) f) as [(k & _ & _ & ->)|[(k & _ & _ & ->)|[(k & _ & _ & ->)|(_ & [(_ & ->)|(x9 & r9 & -> & [(_ & -> & ->)|[(_ & -> & ->)|(_ & -> & ->)]])])]]];
       cbn [snd app]; intros H; repeat (destruct H as [H|H]; try discriminate); contradiction.
   - destruct (refc (set_refc (bump s) (refc s + 1)) >? 1)%Z; cbn; [intros [H|[]]; discriminate | intros []].
   - destruct (existsb (Nat.eqb t0) (spawned s)); [|intros []].
     destruct (get_cases (set_spawned s (filter (fun x => negb (Nat.eqb x t0)) (spawned s))) f)
-      as [(k & _ & _ & ->)|[(k & _ & _ & ->)|[(k & _ & _ & ->)|(_ & [(_ & ->)|(_ & ->)])]]];
+      as [(k & _ & _ & ->)|[(k & _ & _ & ->)|[(k & _ & _ & ->)|(_ & [(_ & ->)|(x9 & r9 & -> & [(_ & -> & ->)|[(_ & -> & ->)|(_ & -> & ->)]])])]]];
       cbn [snd app]; intros H; repeat (destruct H as [H|H]; try discriminate); contradiction.
   - cbn [next set_refc refc]. destruct (next s) as [k|]; [|intros []].
     destruct (Z.leb_spec (refc s - 1) 0) as [Hle|Hgt]; cbn; [|intros []].
